@@ -133,7 +133,12 @@ impl Simd for Simd256u {
     }
 
     #[inline(always)]
-    fn gt(&self, _rhs: &Self) -> Self::Mask {
-        todo!()
+    fn gt(&self, rhs: &Self) -> Self::Mask {
+        unsafe {
+            // unsigned a > b  <=>  !(max(a, b) == b)
+            let max = _mm256_max_epu8(self.0, rhs.0);
+            let le = _mm256_cmpeq_epi8(max, rhs.0);
+            Mask256(_mm256_cmpeq_epi8(le, _mm256_setzero_si256()))
+        }
     }
 }
